@@ -395,6 +395,43 @@ func checkC04(r *harness.Run) harness.Coverage {
 		})
 		completedRich = n
 	}
+	// ---- (1c) every structured token (raw strings, quoted identifiers and literals with escapes, invalid contents)
+	// inside every bracketing construct: a scanner that looks for delimiters in the TEXT must respect each
+	// token kind's own escape rules ('it\'s' inside [ ], ( ), { }, [? ])
+	{
+		var structured []model.Tok
+		for _, t := range richAlphabet[len(blindAlphabet):] {
+			if t.Kind == model.RAW || t.Kind == model.QID || t.Kind == model.LIT {
+				structured = append(structured, t)
+			}
+		}
+		structured = append(structured, model.T(model.RAW, `'O\'Brien]'`), model.T(model.RAW, `'(\'['`), model.T(model.RAW, `'\'}'`), model.T(model.QID, `"]\")"`), model.T(model.LIT, "`\"[\\`(\"`"), model.T(model.RAW, `'"'`), model.T(model.RAW, "'`'"), model.T(model.QID, "\"'`\""))
+		ctxs := []string{"[ T ]", "{ a : T }", "f ( T )", "a [? T ]", "( T )", "a [? b == T ]", "[ T , T ]", "a . { k : T }", "f ( a , T )", "[? T ] . a", "[ T ] | [ 0 ]", "( T ) || a", "[ T ,", "f ( T", "{ a : T", "[? T", "T ]", "T )"}
+		var seqs [][]model.Tok
+		for _, c := range ctxs {
+			var tmpl []model.Tok
+			for _, f := range strings.Fields(c) {
+				if f == "T" {
+					tmpl = append(tmpl, model.Tok{})
+				} else {
+					tmpl = append(tmpl, univ.Lx(f)...)
+				}
+			}
+			for _, t := range structured {
+				seq := make([]model.Tok, len(tmpl))
+				for i, x := range tmpl {
+					if x == (model.Tok{}) {
+						seq[i] = t
+					} else {
+						seq[i] = x
+					}
+				}
+				seqs = append(seqs, seq)
+			}
+		}
+		harness.Parallel(len(seqs), func(wk, i int) { handle(wk, seqs[i], allStyles) })
+		r.Note("structured_tokens_in_brackets", len(seqs))
+	}
 	// ---- (2) edit neighbourhood of generated sentences
 	g := univ.NewGen(univ.FullFragment())
 	completedEdit := 0
